@@ -431,8 +431,12 @@ func (rs *s3ClientStorage) GetObject(ctx context.Context, bucketName storage.Buc
 		ranges = []storage.ByteRange{{Start: nil, End: nil}}
 	}
 
-	// First, get object metadata
-	object, err := rs.HeadObject(ctx, bucketName, key, nil)
+	// First, get object metadata (of the requested version, if any)
+	var headOpts *storage.HeadObjectOptions
+	if opts != nil && opts.VersionID != nil {
+		headOpts = &storage.HeadObjectOptions{VersionID: opts.VersionID}
+	}
+	object, err := rs.HeadObject(ctx, bucketName, key, headOpts)
 	if err != nil {
 		return nil, nil, err
 	}
@@ -583,6 +587,13 @@ func (rs *s3ClientStorage) PutObject(ctx context.Context, bucketName storage.Buc
 	if opts != nil && opts.StorageClass != nil {
 		input.StorageClass = types.StorageClass(*opts.StorageClass)
 	}
+	if opts != nil && len(opts.Tags) > 0 {
+		values := url.Values{}
+		for k, v := range opts.Tags {
+			values.Set(k, v)
+		}
+		input.Tagging = aws.String(values.Encode())
+	}
 	putObjectResult, err := rs.s3Client.PutObject(ctx, input)
 	var notFoundError *types.NotFound
 	if err != nil && errors.As(err, &notFoundError) {
@@ -597,6 +608,7 @@ func (rs *s3ClientStorage) PutObject(ctx context.Context, bucketName storage.Buc
 	}
 
 	return &storage.PutObjectResult{
+		VersionID:         putObjectResult.VersionId,
 		ETag:              putObjectResult.ETag,
 		ChecksumCRC32:     putObjectResult.ChecksumCRC32,
 		ChecksumCRC32C:    putObjectResult.ChecksumCRC32C,
